@@ -239,6 +239,37 @@ def run_case(case):
                                         ", ".join(n_ for n_, _ in caps)[:120], rel), wit,
                                     mech="param-update", obs={"rel": rel})
                 return held(sig, obs, checks, nontrivial)
+        # augmented assignment: `B = A; B += A` builds a new sum - the operator B was bound to
+        # before (A, with the A.H taken above) stays what it was, and both are adjoint pairs
+        if sum(case["rs"]) % 4 == 2:
+            try:
+                B = A
+                B += A
+            except Exception:
+                B = None
+            if B is not None:
+                x = crandn(rng, ish, dt)
+                y = crandn(rng, osh, dt if dt.kind == "c" else np.float64)
+                for nm_, Op, OpH, f_ in (("A (after B = A; B += A)", A, AH, 1.0),
+                                         ("A + A built with +=", B, B.H, 2.0)):
+                    STATE.peak = 0.0
+                    Ox, OHy = Op(x), OpH(y)
+                    lhs, rhs = inner(Ox, y), inner(x, OHy)
+                    sc_ = nrm(Ox) * nrm(y) + nrm(x) * nrm(OHy) + 1e-3 * max(
+                        1.0, STATE.peak / max(min(nrm(x), nrm(y)), 1e-300)) * nrm(x) * nrm(y)
+                    if spec is not None:
+                        sc_ += rnd * nrm(x) * nrm(y) * 2
+                    checks += 1
+                    if not abs(lhs - rhs) <= tol * sc_:
+                        return violated(sig, "%s is not an adjoint pair any more: <Ox,y> = %s, "
+                                        "<x,O^H y> = %s" % (nm_, lhs, rhs), wit,
+                                        mech="iadd-history")
+                ax_ = np.asarray(A(x))
+                if nrm(np.asarray(B(x)) - 2 * ax_) > max(tol, 1e-9) * (
+                        2 * nrm(ax_) + 1e-3 * max(nrm(x), STATE.peak)) + (
+                        rnd * nrm(x) * 4 if spec is not None else 0):
+                    return violated(sig, "B = A; B += A does not act as 2 A (or changed A)", wit,
+                                    mech="iadd-history")
         # dense form
         ni, no = int(np.prod(ish)), int(np.prod(osh))
         if dt == np.complex128 and ni <= 48 and no <= 48:
